@@ -712,6 +712,10 @@ func ruleEndian(p *Prog, r *Report) {
 	if fn := p.MustFunc(r, "ast", "(*FloatNode).ToBytes"); fn != nil {
 		for _, k := range []int64{4, 8} {
 			key := fmt.Sprintf("%s:ast.(*FloatNode).ToBytes:width=%d", rule, k)
+			if base, ok := resultBigEndian(p, fn, k); ok && strings.Contains(base, fmt.Sprintf("Float%dbits(", 8*k)) {
+				r.ok(rule, key, p.Pos(fn.Pos()), fmt.Sprintf("evaluated on two elements of arbitrary value: the %d bytes emitted per element are byte(x>>%d) … byte(x) of x = %s: most significant first", k, 8*(k-1), base))
+				continue
+			}
 			in := symInterp(p)
 			in.PathBind["len(p0.variables)"] = int64Val(0)
 			in.PathBind["p0.byteSize"] = int64Val(k)
@@ -792,6 +796,10 @@ func ruleEndian(p *Prog, r *Report) {
 			continue
 		}
 		key := fmt.Sprintf("%s:ast.(*%s).ToBytes:loop", rule, tn)
+		if d, ok := bigEndianResult(p, fn); ok {
+			r.ok(rule, key, p.Pos(fn.Pos()), d)
+			continue
+		}
 		if d, ok := bigEndianTerms(p, fn); ok {
 			r.ok(rule, key, p.Pos(fn.Pos()), d)
 			continue
@@ -998,6 +1006,74 @@ func bigEndianTerms(p *Prog, fn *ssa.Function) (string, bool) {
 		element = base
 	}
 	return fmt.Sprintf("for every width k the k bytes appended per element are byte(x>>8(k-1)) ... byte(x) of x = %s: most significant first", element), true
+}
+
+// resultBigEndian evaluates ToBytes on a node of two elements of arbitrary
+// (symbolic) value and width k and reads the payload from the result: the k
+// bytes of element i must be byte(x>>8(k-1)), ..., byte(x) of one term x over
+// p0.values[i] - wherever they were produced (in the function, in a helper,
+// through encoding/binary). It returns the term of element 0.
+func resultBigEndian(p *Prog, fn *ssa.Function, k int64) (string, bool) {
+	const n = 2
+	in := symInterp(p)
+	in.PathBind["p0.byteSize"] = int64Val(k)
+	in.PathBind["len(p0.variables)"] = int64Val(0)
+	in.MapKeys["p0.variables"] = nil
+	in.PathBind["p0.values"] = Val{K: KSlice, S: "p0.values", Len: n}
+	out := in.Run(fn, defaultArgs(fn), nil)
+	var full *Val
+	for _, rv := range out.Frame.ReturnVals() {
+		if rv[0].K == KSlice && rv[0].Len > 0 {
+			v := rv[0]
+			full = &v
+		}
+	}
+	if len(in.Stuck) > 0 || out.CanPanic || full == nil || full.Len < n*int(k) {
+		return "", false
+	}
+	first := ""
+	for e := 0; e < n; e++ {
+		base := ""
+		for j := 0; j < int(k); j++ {
+			t := in.Elem(*full, full.Len-n*int(k)+e*int(k)+j, typByte).String()
+			want := 8 * (int(k) - 1 - j)
+			var x string
+			if m := byteOfShift.FindStringSubmatch(t); m != nil {
+				if sh, _ := strconv.Atoi(m[2]); sh != want {
+					return "", false
+				}
+				x = m[1]
+			} else if m := byteOfWhole.FindStringSubmatch(t); m != nil && want == 0 {
+				x = m[1]
+			} else {
+				return "", false
+			}
+			if base == "" {
+				base = x
+			} else if base != x {
+				return "", false
+			}
+		}
+		if !strings.Contains(base, fmt.Sprintf("p0.values[%d]", e)) {
+			return "", false
+		}
+		if e == 0 {
+			first = base
+		}
+	}
+	return first, true
+}
+
+func bigEndianResult(p *Prog, fn *ssa.Function) (string, bool) {
+	element := ""
+	for _, k := range []int64{1, 2, 4, 8} {
+		base, ok := resultBigEndian(p, fn, k)
+		if !ok {
+			return "", false
+		}
+		element = base
+	}
+	return fmt.Sprintf("evaluated for every width k on two elements of arbitrary value: the k bytes emitted per element are byte(x>>8(k-1)) ... byte(x) of x = %s, element after element: most significant first", element), true
 }
 
 func bigEndianStdlib(p *Prog, fn *ssa.Function) (string, bool) {
